@@ -497,6 +497,49 @@ fn gene_config(n_instr: usize, close: Option<f32>, skewed: bool, via_plushy: boo
     t.finish(rep);
 }
 
+/// The default close probability is 1/(n+1) for *any* number n of instructions, also far beyond
+/// the handful used above (an instruction set enumerated from a large table): close frequency
+/// against 1/(n+1), every other gene an instruction of the set, lower / upper half evenly.
+fn gene_config_large(n_instr: usize, ctor: usize, n: u64, seed: u64, rep: &mut Report) {
+    let cfg = format!("GeneGenerator instructions={n_instr} default close probability ctor={}", GENE_CTORS[ctor]);
+    let mut rng = TraceRng::derive(seed, "C12-genes-large", fnv_str(&cfg));
+    let instrs: Vec<PushInstruction> = (0..n_instr as i64).map(PushInstruction::push_int).collect();
+    let d = instrs.into_distribution().expect("non-empty");
+    let (mut closes, mut lower, mut total) = (0u64, 0u64, 0u64);
+    let mut record = |g: PushGene, rep: &mut Report| {
+        total += 1;
+        match g {
+            PushGene::Close => closes += 1,
+            PushGene::Instruction(PushInstruction::IntInstruction(IntInstruction::Push(v))) if (0..n_instr as i64).contains(&v.0) => {
+                if (v.0 as usize) < n_instr / 2 {
+                    lower += 1;
+                }
+            }
+            other => rep.violation("C12/gene-not-from-distribution", || json!({"gene": format!("{other:?}")})),
+        }
+    };
+    macro_rules! drive {
+        ($gg:expr) => {{
+            let gg = $gg;
+            for _ in 0..n {
+                let g: PushGene = gg.sample(&mut rng);
+                record(g, rep);
+            }
+            rep.evals(n);
+        }};
+    }
+    match ctor {
+        3 => drive!(GeneGenerator::with_uniform_close_probability(d)),
+        4 => drive!(d.into_gene_generator()),
+        _ => drive!(d.to_gene_generator()),
+    }
+    let p_close = 1.0 / (n_instr as f64 + 1.0);
+    let mut t = Table::new(cfg);
+    t.cat(rep, "gene-close-probability", "gene is a close marker", total, closes, p_close);
+    t.cat(rep, "gene-instruction-distribution", "gene is an instruction from the lower half of the set", total, lower, (1.0 - p_close) * ((n_instr / 2) as f64 / n_instr as f64));
+    t.finish(rep);
+}
+
 enum Cfg {
     Flip(&'static str, Option<f32>, usize),
     Umad(f64, f64, usize),
@@ -504,6 +547,7 @@ enum Cfg {
     Uniform(usize, usize),
     Bits(usize, f64, usize),
     Gene(usize, Option<f32>, bool, bool, usize),
+    GeneLarge(usize, usize),
     OneOverLong(&'static str, usize, u64),
     UniformLags(usize, usize),
     FlipLags(usize, usize),
@@ -584,6 +628,9 @@ pub fn run(args: &Args) -> i32 {
         for n_instr in [1usize, 2, 3, 4, 5, 6, 7, 8, 15, 16, 31] {
             cfgs.push(Cfg::Gene(n_instr, None, false, n_instr == 3, ctor));
         }
+        for big in [200_000usize, (1 << 20) - 1] {
+            cfgs.push(Cfg::GeneLarge(big, ctor));
+        }
     }
     // explicit close probability: every explicit constructor, uniform and skewed instruction distributions
     for ctor in 0..3usize {
@@ -603,6 +650,7 @@ pub fn run(args: &Args) -> i32 {
             Cfg::Uniform(fl, len) => uniform_config(*fl, *len, n / (*len as u64).clamp(1, 8) / (*len as u64 / 64).max(1), args.seed, &mut rep),
             Cfg::Bits(w, p, len) => bitstring_config(*w, *p, *len, n / (*len as u64).clamp(1, 8) / (*len as u64 / 64).max(1), args.seed, &mut rep),
             Cfg::OneOverLong(kind, len, muts) => one_over_length_long(kind, *len, *muts * args.tier.pick(1, 8), args.seed, &mut rep),
+            Cfg::GeneLarge(k, ctor) => gene_config_large(*k, *ctor, n * 8, args.seed, &mut rep),
             Cfg::Gene(k, c, s, v, ctor) => gene_config(*k, *c, *s, *v, *ctor, n / 2, args.seed, &mut rep),
             Cfg::UniformLags(fl, len) => uniform_xo_lags("C12/uniform-xo", *fl, *len, n / 10, args.seed, &mut rep),
             Cfg::FlipLags(kind, len) => flip_lags(*kind, *len, n / 10, args.seed, &mut rep),
